@@ -28,9 +28,14 @@ A_SUM = ("A-sum: for the for-every-team-size obligations the team aggregates are
 
 def _replay(prop, model, n, ranks, gamma_mode, kind):
     from . import c01
-    rp = c01._std_replay(model, (2,) * n, ranks, gamma_mode, scale_of(model))
+    # replays of a for-every-size obligation use teams beyond the sizes the other obligations list
+    rp = c01._std_replay(model, _replay_sizes(n), ranks, gamma_mode, scale_of(model))
     rp["kind"] = kind
     return rp
+
+
+def _replay_sizes(n):
+    return tuple(([6, 5, 7] + [2] * n)[:n])
 
 
 def _not_attempted(prop, model, shape, why):
@@ -125,9 +130,9 @@ def c05(model, n):
         # (mu'_k - mu_k) sigma_k2^2 == (mu'_k2 - mu_k2) sigma_k^2
         t0 = time.time()
         okd = True
-        if run.ctx.split_roots:
-            recs.append(_not_attempted("C05", model, shape, "the per-member loop branches on a member's values: two members need not share one result term"))
-        for i in ([] if run.ctx.split_roots else range(n)):
+        for i in range(n):
+            # (if the per-member loop branches on a member's values or position the merged result term is an
+            # if-then-else over the member's own condition; the second member gets its own index symbol)
             sub = run.second_member(i)
             with active(run.ctx):
                 dk = term(post[i][0][0] - run.prior[i][0][0])
@@ -135,8 +140,7 @@ def c05(model, n):
             dk2, sgk2 = z3.substitute(dk, *sub), z3.substitute(sgk, *sub)
             P2 = run.prover()
             okd = okd and P2.prove_eq(dk * sgk2 * sgk2, dk2 * sgk * sgk)[0]
-        if not run.ctx.split_roots:
-            recs.append(field_rec(f"C05/{model}/_compute/any-team-size/same-direction@{shape}", okd, "field", "", time.time() - t0, fn, shape, rp))
+        recs.append(field_rec(f"C05/{model}/_compute/any-team-size/same-direction@{shape}", okd, "field", "", time.time() - t0, fn, shape, rp))
         P = run.prover()
         SP = signs.SignProver(run.hyps, run.facts)
 
@@ -299,7 +303,7 @@ def rate_units(prop, model, n, vec, limit, use_t):
 
     def rp_for(kind):
         from . import c01
-        rp = c01._std_replay(model, (2,) * n, None, "default", scale, limit=limit)
+        rp = c01._std_replay(model, _replay_sizes(n), None, "default", scale, limit=limit)
         rp["kind"] = kind
         rp["vec"] = vec
         return rp
